@@ -1,4 +1,6 @@
 SPECIFICATION Spec
-CONSTANT DumpCases = TRUE
+CONSTANTS
+  DumpCases = TRUE
+  Extras = {"none"}
 INVARIANT Refines
 CHECK_DEADLOCK FALSE
